@@ -1061,3 +1061,158 @@ Example y_info_stats :
   match info ds_none {| fs_data := y_F; fs_fail := None |} with
   | Ok sm => sm_stats sm | _ => None end = Some (stats_record (r_final y_R)).
 Proof. vm_compute. reflexivity. Qed.
+
+Example y_info_applies :
+  let rs := map fst y_S in
+  exists sm, info ds_none {| fs_data := y_F; fs_fail := None |} = Ok sm /\
+    sm_footer sm = Some y_ft /\
+    sm_schemas sm = tab_of s_id (schemas_of rs) [] /\
+    sm_channels sm = tab_of c_id (channels_of rs) [] /\
+    (forall id, tab_get id (sm_schemas sm) = find (fun s => s_id s =? id) (rev (schemas_of rs))) /\
+    (forall id, tab_get id (sm_channels sm) = find (fun c => c_id c =? id) (rev (channels_of rs))) /\
+    sm_ais sm = ais_of rs /\ sm_mxs sm = mxs_of rs /\
+    sm_cis sm = ci_sort FileOrder (cis_of rs) /\
+    sm_stats sm = last_or (stats_of rs) None.
+Proof.
+  destruct y_file_shape as [E _]. rewrite E.
+  destruct y_info_hyps as (H1 & H2 & H3 & H4 & H5).
+  exact (C08_info_thm ds_none y_pre y_S y_ft H1 H2 H3 H4 H5).
+Qed.
+
+(* a file without summary: summary_start = 0 *)
+Definition y_o_nosummary : wopts :=
+  {| o_crc := true; o_chunked := false; o_chunksize := 0; o_comp := []; o_custom := false;
+     o_skip_mi := true; o_skip_stats := true; o_skip_rsh := true; o_skip_rch := true;
+     o_skip_ai := true; o_skip_mdi := true; o_skip_ci := true; o_skip_so := true;
+     o_override_lib := false; o_skip_magic := false |}.
+Definition y_R0 : wresult := W y_o_nosummary [x6c] (fun _ b => b) None y_cs.
+Definition y_ft0 : footer :=
+  match nth 1 (w_trace (r_final y_R0)) IMagic with
+  | IFooter ss sos crc => {| f_summary_start := ss; f_summary_offset_start := sos; f_crc := crc |}
+  | _ => {| f_summary_start := 1; f_summary_offset_start := 0; f_crc := 0 |}
+  end.
+Example y_no_summary_hyps :
+  wf_footer y_ft0 /\ f_summary_start y_ft0 = 0 /\ f_crc y_ft0 <> 0 /\
+  file_of y_R0 = firstn (length (file_of y_R0) - 37) (file_of y_R0) ++ frame OpFooter (enc_footer y_ft0) ++ magic /\
+  info ds_none {| fs_data := file_of y_R0; fs_fail := None |} = Ok (empty_summ <| sm_footer := Some y_ft0 |>).
+Proof.
+  split; [apply wf_footerb_iff; vm_compute; reflexivity|]. split; [vm_compute; reflexivity|].
+  split; [vm_compute; discriminate|].
+  split; vm_compute; reflexivity.
+Qed.
+
+(* ---------- C12: the summary records in reverse order ---------- *)
+Definition y_S' : list (srec * bytes) := rev y_S.
+Definition y_ro (topics : list bytes) (o : rorder) : ropts :=
+  {| ro_start := 0; ro_end := 0; ro_topics := topics; ro_use_index := true; ro_order := o;
+     ro_md_cb := false; ro_start_n := 0; ro_end_n := max_u64; ro_unbounded := true |}.
+
+Example y_order_hyps :
+  let rs := map fst y_S in
+  Permutation y_S y_S' /\ y_S <> y_S' /\
+  NoDup (map s_id (schemas_of rs)) /\ NoDup (map c_id (channels_of rs)) /\
+  NoDup (map ci_offset (cis_of rs)) /\ (length (stats_of rs) <= 1)%nat /\
+  f_summary_start y_ft = f_summary_start y_ft.
+Proof.
+  split; [apply Permutation_rev|]. split; [vm_compute; discriminate|].
+  split; [apply nodupNb_ok; vm_compute; reflexivity|].
+  split; [apply nodupNb_ok; vm_compute; reflexivity|].
+  split; [apply nodupNb_ok; vm_compute; reflexivity|].
+  split; [vm_compute; lia|reflexivity].
+Qed.
+
+Example y_order_applies : forall ro im,
+  exists sm sm',
+    parse_summary ds_none {| fs_data := y_F; fs_fail := None |} ro im = Ok sm /\
+    parse_summary ds_none {| fs_data := summ_file y_pre y_S' y_ft; fs_fail := None |} ro im = Ok sm' /\
+    sm_schemas sm = sm_schemas sm' /\ sm_channels sm = sm_channels sm' /\
+    Permutation (sm_ais sm) (sm_ais sm') /\ Permutation (sm_mxs sm) (sm_mxs sm') /\
+    sm_cis sm = sm_cis sm' /\ sm_stats sm = sm_stats sm' /\
+    can_use_index sm = can_use_index sm'.
+Proof.
+  intros ro im. destruct y_file_shape as [E _]. rewrite E.
+  destruct y_info_hyps as (H1 & H2 & H3 & H4 & H5).
+  destruct y_order_hyps as (P & _ & N1 & N2 & N3 & N4 & _).
+  exact (C12_summary_order_thm ds_none ro im y_pre y_S y_S' y_ft y_ft P H1 H2 H2 H3 eq_refl H4 H5 N1 N2 N3 N4).
+Qed.
+
+(* reading only topic "u" (channel 2) in log-time order: both layouts keep the chunks at 226 and 527,
+   loaded in the order 527 (start 3), 226 (start 7) *)
+Example y_order_value :
+  let r := y_ro [[x75]] LogTimeOrder in
+  let view x := match x with Ok sm => Some (map ci_offset (sm_cis sm), map fst (sm_channels sm)) | _ => None end in
+  view (parse_summary ds_none {| fs_data := y_F; fs_fail := None |} r false) = Some ([527; 226], [2]) /\
+  view (parse_summary ds_none {| fs_data := summ_file y_pre y_S' y_ft; fs_fail := None |} r false) = Some ([527; 226], [2]).
+Proof. vm_compute. split; reflexivity. Qed.
+
+(* with a repeated channel id the last record wins, so the order matters: the distinctness
+   hypotheses cannot be dropped *)
+Example y_order_needs_distinct_ids :
+  let c1 := {| c_id := 1; c_schema := 0; c_topic := [x61]; c_menc := []; c_meta := [] |} in
+  let c2 := {| c_id := 1; c_schema := 0; c_topic := [x62]; c_menc := []; c_meta := [] |} in
+  let S1 := [(SChannel c1, []); (SChannel c2, [])] in
+  let ft := {| f_summary_start := 8; f_summary_offset_start := 0; f_crc := 0 |} in
+  let view S := match info ds_none {| fs_data := summ_file [IMagic] S ft; fs_fail := None |} with
+                | Ok sm => Some (map (fun kv => c_topic (snd kv)) (sm_channels sm)) | _ => None end in
+  view S1 = Some [[x62]] /\ view (rev S1) = Some [[x61]].
+Proof. vm_compute. split; reflexivity. Qed.
+
+(* ---------- C02: the loader hypothesis for the four chunks of the file ---------- *)
+Fixpoint chunks_at (off : N) (tr : list item) : list (N * chunk) :=
+  match tr with
+  | [] => []
+  | it :: r => match it with IChunk k => [(off, k)] | _ => [] end ++ chunks_at (off + blen (render_item it)) r
+  end.
+Definition am_of (m : message) : amsg := {| am_ts := m_log m; am_chan := m_chan m; am_uid := N.to_nat (m_log m) |}.
+Definition ac_of (x : N * chunk) : achunk :=
+  {| ac_start := k_start (snd x); ac_end := k_end (snd x); ac_off := fst x;
+     ac_msgs := map am_of (kmsgs (decode_plain (k_records (snd x)))) |}.
+Definition y_cis : list chunkindex := w_chunk_indexes (r_final y_R).
+Definition y_chunks : list (N * chunk) := chunks_at 0 y_tr.
+Definition y_pairs : list (chunkindex * achunk) := combine y_cis (map ac_of y_chunks).
+
+Example y_pairs_shape :
+  length y_pairs = 4%nat /\ map (fun x => ci_offset (fst x)) y_pairs = [26; 226; 388; 527] /\
+  map (fun x => map am_ts (ac_msgs (snd x))) y_pairs = [[10]; [7]; [12]; [3]] /\
+  map (fun x => length (decode_plain (k_records (snd x)))) y_chunks = [4; 1; 1; 1]%nat.
+Proof. vm_compute. repeat split. Qed.
+
+Lemma rendered_chunk_ok_intro dall F i tr k ci c :
+  F = render tr -> nth_error tr i = Some (IChunk k) ->
+  ci_offset ci = blen (render (firstn i tr)) -> ci_length ci = blen (render_item (IChunk k)) ->
+  wf_chunk k -> Iter.chunk_plain dall k = Ok (kplain (decode_plain (k_records k))) ->
+  Forall wf_krec (decode_plain (k_records k)) ->
+  Forall2 msg_match (kmsgs (decode_plain (k_records k))) (ac_msgs c) ->
+  rendered_chunk_ok dall F ci c.
+Proof.
+  intros HF Hn Ho Hl Wk Hp HW Hm. exists k, (kplain (decode_plain (k_records k))), (decode_plain (k_records k)).
+  split; [|auto 10]. exists (firstn i tr), (skipn (S i) tr). split; [|auto].
+  rewrite HF. f_equal. rewrite <- (firstn_skipn i tr) at 1. f_equal.
+  clear - Hn. revert i Hn. induction tr as [|x tr IH]; intros [|i] Hn; try discriminate.
+  - inversion Hn; subst. reflexivity.
+  - cbn [nth_error] in Hn. cbn [skipn]. rewrite IH by exact Hn. reflexivity.
+Qed.
+
+Lemma map_am_of_match l : Forall2 msg_match l (map am_of l).
+Proof. induction l; cbn [map]; constructor; [split; reflexivity|assumption]. Qed.
+
+Ltac y_chunk i :=
+  eapply (rendered_chunk_ok_intro x_dall y_F i y_tr);
+  [ vm_compute; reflexivity | vm_compute; reflexivity | vm_compute; reflexivity | vm_compute; reflexivity
+  | apply wf_chunkb_iff; vm_compute; reflexivity | vm_compute; reflexivity
+  | apply wf_krecb_ok; vm_compute; reflexivity | apply map_am_of_match ].
+
+Example y_chunks_ok : forall ci c, In (ci, c) y_pairs -> rendered_chunk_ok x_dall y_F ci c.
+Proof.
+  assert (H : Forall (fun x => rendered_chunk_ok x_dall y_F (fst x) (snd x))
+                [ (nth 0 y_cis x_ci, ac_of (nth 0 y_chunks (0, x_chunk)));
+                  (nth 1 y_cis x_ci, ac_of (nth 1 y_chunks (0, x_chunk)));
+                  (nth 2 y_cis x_ci, ac_of (nth 2 y_chunks (0, x_chunk)));
+                  (nth 3 y_cis x_ci, ac_of (nth 3 y_chunks (0, x_chunk))) ]).
+  { repeat constructor; cbn [fst snd].
+    - y_chunk 2%nat.
+    - y_chunk 4%nat.
+    - y_chunk 7%nat.
+    - y_chunk 10%nat. }
+  intros ci c Hin. rewrite Forall_forall in H. exact (H (ci, c) Hin).
+Qed.
